@@ -60,7 +60,7 @@ fn main() {
         sink.merge(struct_sweep(&run, &[&SIGNED_OLD], &big_so, 1, &sfx, 24, &no_extra));
     }
     // the same structures with other opaque contents (all zero, 00 ff.., leading zero before a high bit, all ff, 80 00..)
-    for style in [1u8, 2, 3, 4, 5, 6, 7, 8, 9, 10, 11, 12, 13, 14, 15, 16, 17, 18, 19] {
+    for style in [1u8, 2, 3, 4, 5, 6, 7, 8, 9, 10, 11, 12, 13, 14, 15, 16, 17, 18, 19, 20, 21] {
         use vcommon::en::with_fill_style as wfs;
         sink.merge(struct_sweep(&run, &[&DH_PARAMS], &wfs(style, || cat::dh_params(false)), run.tier.pick(0, 1), &sfx, 48, &no_extra));
         sink.merge(struct_sweep(&run, &[&ECDH_PARAMS, &EC_PARAMETERS], &wfs(style, cat::ecdh_params), run.tier.pick(0, 1), &sfx, 48, &no_extra));
